@@ -93,3 +93,38 @@ Definition step_slot (st : state) (i : nat) : state :=
   | None => st
   end.
 Definition run_slot (sched : list nat) (st : state) : state := fold_left step_slot sched st.
+
+(* a fourth protocol (seed C16-7): both lookups are repaired, but the worker that CREATED the exporter's entry carries a
+   "new source" flag to the producer, which treats it like a failed lookup and installs a fresh system over the
+   published one -- a decision made under one lock, acted on later under another.  (Create, S i) = the creator on its
+   way to the producer. *)
+Definition wstep_flag (s : shared) (w : worker) : shared * worker :=
+  match pcw w with
+  | Lookup =>
+      match pub s with
+      | Some i => (s, {| pcw := Add; loc := i; tid := tid w |})
+      | None => (s, {| pcw := Create; loc := 0; tid := tid w |})
+      end
+  | Create =>
+      match loc w with
+      | O =>                                             (* Lock; look again; create; publish; Unlock *)
+          match pub s with
+          | Some i => (s, {| pcw := Add; loc := i; tid := tid w |})
+          | None => ({| pub := Some (length (systems s)); systems := systems s ++ [[]] |},
+                     {| pcw := Create; loc := S (length (systems s)); tid := tid w |})
+          end
+      | S _ =>                                           (* the producer, flag set: a fresh system replaces the published one *)
+          ({| pub := Some (length (systems s)); systems := systems s ++ [[tid w]] |},
+           {| pcw := Done; loc := length (systems s); tid := tid w |})
+      end
+  | Add =>
+      ({| pub := pub s; systems := upd (loc w) (tid w :: sys_get s (loc w)) (systems s) |},
+       {| pcw := Done; loc := loc w; tid := tid w |})
+  | Done => (s, w)
+  end.
+Definition step_flag (st : state) (i : nat) : state :=
+  match nth_error (snd st) i with
+  | Some w => let (s', w') := wstep_flag (fst st) w in (s', upd i w' (snd st))
+  | None => st
+  end.
+Definition run_flag (sched : list nat) (st : state) : state := fold_left step_flag sched st.
